@@ -86,8 +86,21 @@ def run(name, tier="quick", props=None):
         json.dump(meta, f, indent=1)
 
 
+def runall(tier="quick"):
+    names = sorted(d for d in os.listdir(os.path.join(V, "seeded")) if os.path.exists(os.path.join(V, "seeded", d, "meta.json")))
+    missed = []
+    for n in names:
+        run(n, tier)
+        meta = json.load(open(os.path.join(V, "seeded", n, "meta.json")))
+        if meta["checks"].get(f"{meta['property']}:{tier}", {}).get("verdict") != "caught":
+            missed.append(n)
+    print(f"{len(names) - len(missed)} of {len(names)} seeded changes caught by the {tier} check of their property; missed: {missed}")
+
+
 if __name__ == "__main__":
-    if sys.argv[1] == "confirm":
+    if sys.argv[1] == "runall":
+        runall(sys.argv[2] if len(sys.argv) > 2 else "quick")
+    elif sys.argv[1] == "confirm":
         sys.exit(confirm(*sys.argv[2:5]))
     else:
         run(sys.argv[2], sys.argv[3] if len(sys.argv) > 3 else "quick", sys.argv[4:] or None)
